@@ -48,6 +48,9 @@ pub fn open_as_container_pack(reader: Reader) -> Result<ContainerPack> {
         Ok(pack_header) => (pack_header, Offset::zero()),
         Err(_) => {
             //Check at end
+            if reader.size() < Size::new(64) {
+                return Err(ErrorKind::NotAJbk.into());
+            }
             let mut buffer_reader = [0u8; 64];
             reader
                 .create_stream((reader.size() - Size::new(64)).into(), Size::new(64), false)?
@@ -55,6 +58,11 @@ pub fn open_as_container_pack(reader: Reader) -> Result<ContainerPack> {
             buffer_reader.reverse();
             let end_reader: Reader = buffer_reader.into();
             let pack_header = end_reader.parse_block_at::<PackHeader>(Offset::zero())?;
+            if pack_header.file_size > reader.size() {
+                return Err(format_error!(
+                    "Pack is bigger than the file containing it. File is probably truncated."
+                ));
+            }
             let origin = reader.size() - pack_header.file_size;
             (pack_header, origin.into())
         }
